@@ -1057,18 +1057,37 @@ structure IOSane (g0 : Graph) : Prop where
   inputNoArgs : ∀ j k, (g0.nd j).op = .input k → (g0.nd j).args = []
   outputUnused : ∀ i j, (g0.nd i).op = .output → i ∉ (g0.nd j).args
 
+/-- the traced graph contains no function that fx regards as impure (torch random functions,
+`torch._assert`): dead-code elimination can then remove everything that is unused -/
+def PureLeaves (g0 : Graph) : Prop := ∀ i, (g0.nd i).impure = (g0.nd i).isIO
+
+theorem pureLeavesB_sound {g : Graph} (h : pureLeavesB g = true) : PureLeaves g := by
+  unfold pureLeavesB at h
+  simp only [List.all_eq_true, beq_iff_eq] at h
+  intro i
+  by_cases hi : i < g.length
+  · apply h
+    unfold Graph.nd
+    rw [getD_lt g i _ hi]; exact List.getElem_mem hi
+  · rw [nd_of_ge g i (by omega)]; rfl
+
 theorem ExportSpec.feeds {win : String → Nat} {g0 g : Graph} (h : ExportSpec win g0 g) (hs : SSA g0)
-    (hio : IOSane g0) (i : Nat) (hl : (g.nd i).live = true) :
+    (hio : IOSane g0) (hpure : PureLeaves g0) (i : Nat) (hl : (g.nd i).live = true) :
     (∃ k, (g.nd i).op = .input k) ∨ FeedsOutput g i := by
   generalize hm : g.length - i = m
   induction m using Nat.strong_induction_on generalizing i with
   | _ m ih =>
     rcases h.used i hl with himp | hu
-    · unfold Node.impure at himp
-      split at himp
-      · rename_i k hk; exact Or.inl ⟨k, hk⟩
-      · rename_i hk; exact Or.inr (FeedsOutput.out i hk)
-      · cases himp
+    · have hnode := h.node_eq i hl
+      have himp0 : (g0.nd i).isIO = true := by
+        rw [← hpure i]
+        rw [hnode] at himp
+        simpa [Node.impure] using himp
+      unfold Node.isIO at himp0
+      split at himp0
+      · rename_i k hk; exact Or.inl ⟨k, by rw [hnode]; exact hk⟩
+      · rename_i hk; exact Or.inr (FeedsOutput.out i (by rw [hnode]; exact hk))
+      · cases himp0
     · obtain ⟨j, hj⟩ := (hasUsers_iff g i).1 hu
       have hij : i < j := h.ssa hs j i hj
       have hjl : (g.nd j).live = true := h.userLive i j hj
